@@ -6,9 +6,15 @@
    on objects; each member type of the union is checked against the leaf reached by the shapes of its valid values. *)
 From LSP Require Import Base Sem SemThy Denote RoundTrip PtyEq.
 
-Inductive shape := ShNull | ShPrimNS | ShStr | ShArr | ShObj (ks : list string).
-Definition shape_of (j : json) : shape :=
-  match j with JNull => ShNull | JBool _ | JInt _ | JFlt _ _ => ShPrimNS | JStr _ => ShStr | JArr _ => ShArr | JObj m => ShObj (keys m) end.
+(* an array's shape records the shape of its FIRST element (None = empty): some hooks decide the element class of a homogeneous
+   array by probing object_[0] *)
+Inductive shape := ShNull | ShPrimNS | ShStr | ShArr (first : option shape) | ShObj (ks : list string).
+Fixpoint shape_of (j : json) : shape :=
+  match j with
+  | JNull => ShNull | JBool _ | JInt _ | JFlt _ _ => ShPrimNS | JStr _ => ShStr
+  | JArr l => ShArr (match l with [] => None | x :: _ => Some (shape_of x) end)
+  | JObj m => ShObj (keys m) end.
+Definition is_first (e : hexpr) : bool := match e with HIdx HObj 0 => true | _ => false end.
 
 Definition is_hobj (e : hexpr) : bool := match e with HObj => true | _ => false end.
 Fixpoint seval (c : hcond) (sh : shape) : option bool :=
@@ -16,8 +22,10 @@ Fixpoint seval (c : hcond) (sh : shape) : option bool :=
   | CIsNone e => if is_hobj e then Some (match sh with ShNull => true | _ => false end) else None
   | CIsPrim e => if is_hobj e then Some (match sh with ShPrimNS | ShStr => true | _ => false end) else None
   | CIsStr e => if is_hobj e then Some (match sh with ShStr => true | _ => false end) else None
-  | CIsList e => if is_hobj e then Some (match sh with ShArr => true | _ => false end) else None
-  | CHasKey k e => if is_hobj e then match sh with ShObj ks => Some (mem k ks) | _ => None end else None
+  | CIsList e => if is_hobj e then Some (match sh with ShArr _ => true | _ => false end) else None
+  | CHasKey k e => if is_hobj e then match sh with ShObj ks => Some (mem k ks) | _ => None end
+                   else if is_first e then match sh with ShArr (Some (ShObj ks)) => Some (mem k ks) | _ => None end else None
+  | CLenEq0 e => if is_hobj e then match sh with ShArr None => Some true | ShArr (Some _) => Some false | _ => None end else None
   | CNot c => option_map negb (seval c sh)
   | COr a b => match seval a sh with Some true => Some true | Some false => seval b sh | None => None end
   | CAnd a b => match seval a sh with Some true => seval b sh | Some false => Some false | None => None end
@@ -32,6 +40,11 @@ Fixpoint cprobes (c : hcond) : list string :=
   match c with CHasKey k _ => [k] | CNot c => cprobes c | COr a b | CAnd a b => cprobes a ++ cprobes b | _ => [] end.
 Fixpoint hprobes (h : hook) : list string :=
   match h with TIf c a b => cprobes c ++ hprobes a ++ hprobes b | _ => [] end.
+
+(* no condition looks inside the first element *)
+Fixpoint cidx_free (c : hcond) : bool :=
+  match c with CHasKey _ e => negb (is_first e) | CNot c => cidx_free c | COr a b | CAnd a b => cidx_free a && cidx_free b | _ => true end.
+Fixpoint idx_free (h : hook) : bool := match h with TIf c a b => cidx_free c && idx_free a && idx_free b | _ => true end.
 
 Fixpoint subseqs {A} (l : list A) : list (list A) :=
   match l with [] => [[]] | x :: r => let s := subseqs r in map (cons x) s ++ s end.
@@ -98,9 +111,30 @@ Definition member_ok (ms : list pty) (h : hook) (t : pty) : bool :=
   | PyStr | PyLit _ => leaf_is (sleaf h ShStr) is_self_or_str
   | PyEnum e => leaf_is (sleaf h ShPrimNS) is_self && leaf_is (sleaf h ShStr) is_self_or_str && not_optional_pair ms
   | PyAny | PyOpaque _ => match h with TRet (RSelf HObj) => true | _ => false end
-  | PySeq e => match sleaf h ShArr with
-               | Some (RMap HObj (RStruct HItem t')) => pty_eqb e t' && okty Sg GC GU e
-               | _ => false end
+  | PySeq e =>
+      (* the empty array *)
+      match sleaf h (ShArr None) with Some REmpty | Some (RMap HObj (RStruct HItem _)) => true | _ => false end &&
+      (* non-empty arrays: either no condition looks at the first element and the elements are structured at e itself, or e is
+         a class and every key set its FIRST element can have leads to a class c' every element is valid for *)
+      ((idx_free h && match sleaf h (ShArr (Some ShNull)) with
+                      | Some (RMap HObj (RStruct HItem t')) => pty_eqb e t' && okty Sg GC GU e
+                      | _ => false end)
+       || match e with
+          | PyCls c =>
+              match lookup_cls Sg c with
+              | None => false
+              | Some fs =>
+                  let P := hprobes h in
+                  forallb (fun S => negb (consistent fs P S) ||
+                     match sleaf h (ShArr (Some (ShObj S))) with
+                     | Some (RMap HObj (RStruct HItem (PyCls c'))) =>
+                         existsb (pty_eqb (PySeq (PyCls c'))) ms && mem c' GC &&
+                         match lookup_cls Sg c' with
+                         | Some fs' => compat c c' fs fs' (filter (fun k => existsb (fun f => String.eqb (fwire f) k && must_present Sg f) fs) (map fwire fs)) []
+                         | None => false end
+                     | _ => false end) (subseqs P)
+              end
+          | _ => false end)
   | PyCls c => cls_member_ok ms h c
   | _ => false end.
 
@@ -147,15 +181,25 @@ Notation Good := (Good Sg py_str).
 Lemma is_hobj_eq e : is_hobj e = true -> e = HObj.
 Proof. destruct e; try discriminate; reflexivity. Qed.
 
+Lemma is_first_eq e : is_first e = true -> e = HIdx HObj 0.
+Proof. destruct e; try discriminate. destruct e; try discriminate. destruct n; try discriminate. reflexivity. Qed.
+Lemma is_nil_keys {A} (m : list (string * A)) : is_nil_b (keys m) = is_nil_b m.
+Proof. destruct m; reflexivity. Qed.
+
 Lemma seval_sound c j : forall b, seval c (shape_of j) = Some b -> ceval c j None = Ok b.
 Proof.
-  induction c as [e|e|e|e|k e|e s|e|c IH|a IHa b IHb|a IHa b IHb]; cbn [seval ceval]; intros r H;
-    try (destruct (is_hobj e) eqn:E; [apply is_hobj_eq in E; subst e; cbn [heval bind] | discriminate]); try discriminate.
-  - inversion H. destruct j; reflexivity.
-  - inversion H. destruct j; reflexivity.
-  - inversion H. destruct j; reflexivity.
-  - inversion H. destruct j; reflexivity.
-  - destruct j; try discriminate. cbn in H. inversion H. reflexivity.
+  induction c as [e|e|e|e|k e|e s|e|c IH|a IHa b IHb|a IHa b IHb]; cbn [seval ceval]; intros r H; try discriminate.
+  - destruct (is_hobj e) eqn:E; [apply is_hobj_eq in E; subst e; cbn [heval bind] | discriminate]. inversion H. destruct j; try reflexivity.
+  - destruct (is_hobj e) eqn:E; [apply is_hobj_eq in E; subst e; cbn [heval bind] | discriminate]. inversion H. destruct j; try reflexivity.
+  - destruct (is_hobj e) eqn:E; [apply is_hobj_eq in E; subst e; cbn [heval bind] | discriminate]. inversion H. destruct j; try reflexivity.
+  - destruct (is_hobj e) eqn:E; [apply is_hobj_eq in E; subst e; cbn [heval bind] | discriminate]. inversion H. destruct j; try reflexivity.
+  - destruct (is_hobj e) eqn:E.
+    + apply is_hobj_eq in E. subst e. cbn [heval bind]. destruct j; try discriminate. cbn in H. inversion H. reflexivity.
+    + destruct (is_first e) eqn:F; [|discriminate]. apply is_first_eq in F. subst e.
+      destruct j as [| | | | |l|]; try discriminate. cbn [shape_of] in H. destruct l as [|x l]; [discriminate|].
+      destruct x as [| | | | | |m]; try discriminate. cbn [shape_of] in H. inversion H. reflexivity.
+  - destruct (is_hobj e) eqn:E; [apply is_hobj_eq in E; subst e; cbn [heval bind] | discriminate].
+    destruct j as [| | | | |l|]; try discriminate. cbn [shape_of] in H. destruct l; inversion H; reflexivity.
   - destruct (seval c (shape_of j)) as [x|]; [|discriminate]. cbn in H. inversion H. rewrite (IH x eq_refl). reflexivity.
   - destruct (seval a (shape_of j)) as [[|]|]; [| |discriminate].
     + inversion H. rewrite (IHa true eq_refl). reflexivity.
@@ -171,18 +215,42 @@ Proof.
   destruct (seval c (shape_of j)) as [[|]|] eqn:E; [| |discriminate]; rewrite (seval_sound _ _ _ E); cbn; auto.
 Qed.
 
-Lemma seval_ext c ks ks' : (forall k, In k (cprobes c) -> mem k ks = mem k ks') -> seval c (ShObj ks) = seval c (ShObj ks').
+(* the leaf depends on an object's key set only through the probed keys — for the value itself and for a first element *)
+Lemma seval_ext c ks ks' : (forall k, In k (cprobes c) -> mem k ks = mem k ks') ->
+  seval c (ShObj ks) = seval c (ShObj ks') /\ seval c (ShArr (Some (ShObj ks))) = seval c (ShArr (Some (ShObj ks'))).
 Proof.
-  induction c as [e|e|e|e|k e|e s|e|c IH|a IHa b IHb|a IHa b IHb]; cbn [seval cprobes]; intros H; try reflexivity.
-  - destruct (is_hobj e); [|reflexivity]. rewrite (H k (or_introl eq_refl)). reflexivity.
-  - rewrite IH; [reflexivity | exact H].
-  - rewrite IHa, IHb; [reflexivity | |]; intros k I; apply H; apply in_or_app; auto.
-  - rewrite IHa, IHb; [reflexivity | |]; intros k I; apply H; apply in_or_app; auto.
+  induction c as [e|e|e|e|k e|e s|e|c IH|a IHa b IHb|a IHa b IHb]; cbn [seval cprobes]; intros H; try (split; reflexivity).
+  - destruct (is_hobj e); [rewrite (H k (or_introl eq_refl)); split; reflexivity|].
+    destruct (is_first e); [rewrite (H k (or_introl eq_refl)); split; reflexivity | split; reflexivity].
+  - destruct (IH H) as [E1 E2]. rewrite E1, E2. split; reflexivity.
+  - destruct (IHa (fun k I => H k (in_or_app _ _ _ (or_introl I)))) as [A1 A2]. destruct (IHb (fun k I => H k (in_or_app _ _ _ (or_intror I)))) as [B1 B2].
+    rewrite A1, A2, B1, B2. split; reflexivity.
+  - destruct (IHa (fun k I => H k (in_or_app _ _ _ (or_introl I)))) as [A1 A2]. destruct (IHb (fun k I => H k (in_or_app _ _ _ (or_intror I)))) as [B1 B2].
+    rewrite A1, A2, B1, B2. split; reflexivity.
 Qed.
-Lemma sleaf_ext h ks ks' : (forall k, In k (hprobes h) -> mem k ks = mem k ks') -> sleaf h (ShObj ks) = sleaf h (ShObj ks').
+Lemma sleaf_ext h ks ks' : (forall k, In k (hprobes h) -> mem k ks = mem k ks') ->
+  sleaf h (ShObj ks) = sleaf h (ShObj ks') /\ sleaf h (ShArr (Some (ShObj ks))) = sleaf h (ShArr (Some (ShObj ks'))).
 Proof.
-  induction h as [c a IHa b IHb|r0|]; cbn [sleaf hprobes]; intros H; try reflexivity.
-  rewrite (seval_ext c ks ks'), IHa, IHb; [reflexivity | | |]; intros k I; apply H; apply in_or_app; auto using in_or_app.
+  induction h as [c a IHa b IHb|r0|]; cbn [sleaf hprobes]; intros H; try (split; reflexivity).
+  destruct (seval_ext c ks ks' (fun k I => H k (in_or_app _ _ _ (or_introl I)))) as [C1 C2].
+  destruct (IHa (fun k I => H k (in_or_app _ _ _ (or_intror (in_or_app _ _ _ (or_introl I)))))) as [A1 A2].
+  destruct (IHb (fun k I => H k (in_or_app _ _ _ (or_intror (in_or_app _ _ _ (or_intror I)))))) as [B1 B2].
+  rewrite C1, C2, A1, A2, B1, B2. split; reflexivity.
+Qed.
+(* without a probe of the first element the leaf does not depend on it *)
+Lemma seval_idx_free c a b : cidx_free c = true -> seval c (ShArr (Some a)) = seval c (ShArr (Some b)).
+Proof.
+  induction c as [e|e|e|e|k e|e s|e|c IH|x IHx y IHy|x IHx y IHy]; cbn [seval cidx_free]; intros H; try reflexivity.
+  - destruct (is_hobj e); [reflexivity|]. apply negb_true_iff in H. rewrite H. reflexivity.
+  - rewrite (IH H). reflexivity.
+  - apply andb_true_iff in H. destruct H as [H1 H2]. rewrite (IHx H1), (IHy H2). reflexivity.
+  - apply andb_true_iff in H. destruct H as [H1 H2]. rewrite (IHx H1), (IHy H2). reflexivity.
+Qed.
+Lemma sleaf_idx_free h a b : idx_free h = true -> sleaf h (ShArr (Some a)) = sleaf h (ShArr (Some b)).
+Proof.
+  induction h as [c x IHx y IHy|r0|]; cbn [sleaf idx_free]; intros H; try reflexivity.
+  apply andb_true_iff in H. destruct H as [H H3]. apply andb_true_iff in H. destruct H as [H1 H2].
+  rewrite (seval_idx_free c a b H1), (IHx H2), (IHy H3). reflexivity.
 Qed.
 
 Lemma is_prim_embed j : is_prim j = true -> is_prim_v (embed j) = true.
@@ -221,6 +289,68 @@ Qed.
 Lemma jvalidate_nonnull f f' v : v <> JNull -> fval f = fval f' -> jvalidate f v = jvalidate f' v.
 Proof. intros N E. unfold jvalidate. rewrite E. destruct v; try reflexivity. contradiction. Qed.
 
+Lemma leaf_map_inv (o : option hret) (Q : pty -> bool) :
+  match o with Some (RMap HObj (RStruct HItem t')) => Q t' | _ => false end = true ->
+  exists t', o = Some (RMap HObj (RStruct HItem t')) /\ Q t' = true.
+Proof.
+  destruct o as [r|]; [|discriminate]. destruct r; try discriminate. destruct e; try discriminate. destruct r; try discriminate.
+  destruct e; try discriminate. eauto.
+Qed.
+
+(* facts about one object that is valid at class c *)
+Definition ValidAt (c : string) (fs : list fld) (m : list (string * json)) : Prop :=
+  (forall k v, In (k, v) m -> exists f, In f fs /\ fwire f = k /\ pvalid (ftype f) v /\ jvalidate f v = true /\ (v = JNull -> NL c k = true)) /\
+  (forall f, In f fs -> must_present Sg f = true -> In (fwire f) (keys m)).
+
+Lemma memK_filter P (K : list string) k : In k P -> mem k (filter (fun k => mem k K) P) = mem k K.
+Proof.
+  intros Ik. rewrite mem_filter; [|intros a b E; apply String.eqb_eq in E; subst; reflexivity]. apply mem_in in Ik. rewrite Ik. reflexivity.
+Qed.
+Lemma memK_filter_sub P (K : list string) k : mem k (filter (fun k => mem k K) P) = true -> mem k K = true.
+Proof. rewrite mem_filter; [|intros a b E; apply String.eqb_eq in E; subst; reflexivity]. intros E. apply andb_true_iff in E. tauto. Qed.
+
+Lemma consistent_valid c fs m P : ValidAt c fs m -> consistent Sg fs P (filter (fun k => mem k (keys m)) P) = true.
+Proof.
+  intros [Hp Hr]. unfold consistent. apply forallb_forall. intros k Ik. apply andb_true_iff. split.
+  - destruct (existsb (fun f => String.eqb (fwire f) k && must_present Sg f) fs) eqn:EX; [|reflexivity]. cbn.
+    apply existsb_exists in EX. destruct EX as [f [If Ef]]. apply andb_true_iff in Ef. destruct Ef as [E1 E2]. apply String.eqb_eq in E1. subst k.
+    rewrite (memK_filter P _ _ Ik). apply mem_in. apply Hr; assumption.
+  - destruct (mem k (filter (fun k0 => mem k0 (keys m)) P)) eqn:EM; [|reflexivity]. cbn. apply memK_filter_sub in EM. apply mem_in in EM.
+    unfold keys in EM. apply in_map_iff in EM. destruct EM as [[k' v] [E I]]. cbn in E. subst k'.
+    destruct (Hp k v I) as [f [If [Ef _]]]. apply mem_in. apply in_map_iff. exists f. auto.
+Qed.
+
+Lemma compat_sound c c' fs fs' m pres abs : lookup_cls Sg c' = Some fs' -> NoDup (keys m) -> ValidAt c fs m ->
+  (forall k, In k pres -> In k (keys m)) -> (forall k, In k abs -> ~ In k (keys m)) ->
+  compat Sg NL c c' fs fs' pres abs = true -> pvalid (PyCls c') (JObj m).
+Proof.
+  intros L' ND [Hp Hr] HPres HAbs HM. unfold compat in HM. apply andb_true_iff in HM. destruct HM as [C1 C2]. rewrite forallb_forall in C1, C2.
+  eapply pv_cls; [exact L' | exact ND | |].
+  - intros k v I. destruct (Hp k v I) as [f [If [Ef [Pf [Jf Nf]]]]]. specialize (C1 f If). apply orb_true_iff in C1. destruct C1 as [C1|C1].
+    + exfalso. apply mem_in in C1. rewrite Ef in C1. apply (HAbs k C1). unfold keys. apply in_map_iff. exists (k, v). auto.
+    + apply existsb_exists in C1. destruct C1 as [f' [If' Sf]]. unfold fld_compat in Sf.
+      apply andb_true_iff in Sf. destruct Sf as [Sf ALT]. apply andb_true_iff in Sf. destruct Sf as [Sw Sv].
+      apply String.eqb_eq in Sw. apply vkind_eqb_eq in Sv. rewrite Ef in ALT.
+      exists f'. split; [exact If'|]. split; [congruence|].
+      apply orb_true_iff in ALT. destruct ALT as [ALT|ALT].
+      * apply andb_true_iff in ALT. destruct ALT as [ALT IM]. apply andb_true_iff in ALT. destruct ALT as [ET EO].
+        apply pty_eqb_eq in ET. apply Bool.eqb_prop in EO.
+        split; [rewrite <- ET; exact Pf|]. split; [rewrite <- (jvalidate_same f f' v Sv EO); exact Jf|].
+        intros EN. specialize (Nf EN). rewrite Nf in IM. exact IM.
+      * apply andb_true_iff in ALT. destruct ALT as [NLF ES]. apply negb_true_iff in NLF. apply pty_eqb_eq in ES.
+        assert (NN : v <> JNull) by (intros EN; specialize (Nf EN); congruence).
+        split; [apply strip_up; rewrite <- ES; apply strip_down; assumption|].
+        split; [rewrite <- (jvalidate_nonnull f f' v NN Sv); exact Jf | intros EN; contradiction].
+  - intros f' If' Mf'. specialize (C2 f' If'). rewrite Mf' in C2. cbn in C2. apply mem_in in C2. exact (HPres _ C2).
+Qed.
+
+Lemma required_present c fs m : ValidAt c fs m ->
+  forall k, In k (filter (fun k => existsb (fun f => String.eqb (fwire f) k && must_present Sg f) fs) (map fwire fs)) -> In k (keys m).
+Proof.
+  intros [_ Hr] k I. apply filter_In in I. destruct I as [_ C2]. apply existsb_exists in C2. destruct C2 as [f [If Ef]].
+  apply andb_true_iff in Ef. destruct Ef as [E1 E2]. apply String.eqb_eq in E1. rewrite <- E1. apply Hr; assumption.
+Qed.
+
 Theorem hook_ok_sound ms h : hook_ok Sg NL GC GU ms h = true -> HookOK Sg py_str NL GC GU ms h.
 Proof.
   unfold hook_ok, HookOK. intros H j V SUB A. apply andb_true_iff in H. destruct H as [_ HM]. rewrite forallb_forall in HM.
@@ -241,16 +371,50 @@ Proof.
   - (* PyBool *) inversion Vt; subst. unfold leaf_is in HM. destruct (sleaf h ShPrimNS) as [r|] eqn:L; [|discriminate].
     apply (RAW (VBool b)); [exists 0; rewrite (sleaf_sound _ h (JBool b) r L); apply (self_result _ r (JBool b) HM) | constructor | constructor].
   - (* PySeq *) inversion Vt as [| | | | | | | | | |t0 l Hl| | | |]; subst.
-    destruct (sleaf h ShArr) as [r|] eqn:L; [|discriminate].
-    destruct r; try discriminate. destruct e; try discriminate. destruct r; try discriminate. destruct e; try discriminate.
-    apply andb_true_iff in HM. destruct HM as [E O]. apply pty_eqb_eq in E. subst t0.
-    destruct (good_all Sg py_str t l) as [n [ys [M F]]].
-    { intros x Ix. apply SUB; [apply jsize_in_arr; exact Ix | exact O | exact (Hl x Ix)]. }
-    apply (RAW (VList ys)).
-    + exists n. rewrite (sleaf_sound _ h (JArr l) _ L). cbn [reval heval bind iter_json].
-      rewrite (mapM_ext _ (structure n t) l); [rewrite M; reflexivity | intros x _; reflexivity].
-    + constructor. intros y Iy. destruct (Forall2_in_r _ _ _ _ F Iy) as [x [_ [T _]]]. exact T.
-    + cbn [Denote.den]. constructor. clear -F. induction F as [|x y l ys [T N] F IH]; constructor; assumption.
+    apply andb_true_iff in HM. destruct HM as [HE HN].
+    destruct l as [|x0 l0].
+    + (* the empty array *)
+      assert (R : hrun py_str (structure 0) h (JArr []) = Ok (VList [])).
+      { destruct (sleaf h (ShArr None)) as [r|] eqn:L; [|discriminate]. rewrite (sleaf_sound _ h (JArr []) r L).
+        destruct r; try discriminate; [reflexivity|]. destruct e; try discriminate. reflexivity. }
+      apply (RAW (VList [])); [exists 0; exact R | constructor; intros y [] | cbn [Denote.den]; constructor; constructor].
+    + apply orb_true_iff in HN. destruct HN as [HN|HN].
+      * (* no condition looks at the first element *)
+        apply andb_true_iff in HN. destruct HN as [IF HN].
+        assert (L : sleaf h (shape_of (JArr (x0 :: l0))) = sleaf h (ShArr (Some ShNull))) by (cbn [shape_of]; apply sleaf_idx_free; exact IF).
+        destruct (leaf_map_inv _ _ HN) as [t' [L0 HN']]. rewrite L0 in L. clear HN.
+        apply andb_true_iff in HN'. destruct HN' as [E O]. apply pty_eqb_eq in E. subst t'.
+        destruct (good_all Sg py_str t (x0 :: l0)) as [n [ys [M F]]].
+        { intros x Ix. apply SUB; [apply jsize_in_arr; exact Ix | exact O | exact (Hl x Ix)]. }
+        apply (RAW (VList ys)).
+        -- exists n. rewrite (sleaf_sound _ h (JArr (x0 :: l0)) _ L). cbn [reval heval bind iter_json].
+           rewrite (mapM_ext _ (structure n t) (x0 :: l0)); [rewrite M; reflexivity | intros x _; reflexivity].
+        -- constructor. intros y Iy. destruct (Forall2_in_r _ _ _ _ F Iy) as [x [_ [T _]]]. exact T.
+        -- cbn [Denote.den]. constructor. clear -F. induction F as [|x y l ys [T N] F IH]; constructor; assumption.
+      * (* the element class is decided by the key set of the first element *)
+        destruct t as [| | | | | | | | | | | |c| |]; try discriminate.
+        destruct (lookup_cls Sg c) as [fs|] eqn:Lc; [|discriminate]. rewrite forallb_forall in HN.
+        assert (VA : forall x, In x (x0 :: l0) -> exists m, x = JObj m /\ NoDup (keys m) /\ ValidAt c fs m).
+        { intros x Ix. specialize (Hl x Ix). inversion Hl as [| | | | | | | | | | | | |c0 fs0 m L0 ND Hp Hr|]; subst.
+          rewrite Lc in L0. inversion L0; subst fs0. exists m. split; [reflexivity|]. split; [exact ND | split; assumption]. }
+        destruct (VA x0 (or_introl eq_refl)) as [m0 [E0 [ND0 VA0]]]. subst x0.
+        set (P := hprobes h) in *. set (S0 := filter (fun k => mem k (keys m0)) P).
+        specialize (HN S0 (in_subseqs_filter _ P)). pose proof (consistent_valid c fs m0 P VA0) as CO. fold S0 in CO. rewrite CO in HN. cbn [negb orb] in HN.
+        assert (LK : sleaf h (shape_of (JArr (JObj m0 :: l0))) = sleaf h (ShArr (Some (ShObj S0)))).
+        { cbn [shape_of]. apply (sleaf_ext h (keys m0) S0). intros k Ik. symmetry. apply memK_filter. exact Ik. }
+        destruct (leaf_map_inv _ (fun t' => match t' with PyCls c' => _ | _ => false end) HN) as [t' [LF HN']]. rewrite LF in LK. clear HN.
+        destruct t' as [| | | | | | | | | | | |c'| |]; try discriminate.
+        apply andb_true_iff in HN'. destruct HN' as [IN HC]. apply andb_true_iff in IN. destruct IN as [IN InG]. apply existsb_pty_in in IN.
+        destruct (lookup_cls Sg c') as [fs'|] eqn:L'; [|discriminate].
+        assert (OK' : okty Sg GC GU (PyCls c') = true) by (unfold okty; cbn [flat_ty handled andb]; exact InG).
+        destruct (good_all Sg py_str (PyCls c') (JObj m0 :: l0)) as [n [ys [M F]]].
+        { intros x Ix. destruct (VA x Ix) as [m [-> [ND VAm]]]. apply SUB; [apply jsize_in_arr; exact Ix | exact OK' |].
+          apply (compat_sound c c' fs fs' m _ [] L' ND VAm (required_present c fs m VAm)); [intros k [] | exact HC]. }
+        exists n, (VList ys). split; [|split].
+        -- rewrite (sleaf_sound _ h (JArr (JObj m0 :: l0)) _ LK). cbn [reval heval bind iter_json].
+           rewrite (mapM_ext _ (structure n (PyCls c')) (JObj m0 :: l0)); [rewrite M; reflexivity | intros x _; reflexivity].
+        -- apply (t_union Sg ms (PySeq (PyCls c')) (VList ys) IN). constructor. intros y Iy. destruct (Forall2_in_r _ _ _ _ F Iy) as [x [_ [T _]]]. exact T.
+        -- cbn [Denote.den]. constructor. clear -F. induction F as [|x y l ys [T N] F IH]; constructor; assumption.
   - (* PyLit *) inversion Vt; subst. unfold leaf_is in HM. destruct (sleaf h ShStr) as [r|] eqn:L; [|discriminate].
     apply (RAW (VStr s)); [exists 0; rewrite (sleaf_sound _ h (JStr s) r L); apply (self_or_str_result _ r s HM) | constructor; assumption | constructor].
   - (* PyEnum *) inversion Vt as [| | | | | | | | |e0 d j0 Le Pj [m [Fm Dm]]| | | | |]; subst e0 j0.
@@ -265,53 +429,22 @@ Proof.
     + eapply t_union_raw; [exact It | exact Le | eapply find_existsb; exact Fm | exact NO | apply is_prim_embed; exact Pj].
     + rewrite den_embed. apply NEq_refl.
   - (* PyCls *) rename n into c. inversion Vt as [| | | | | | | | | | | | |c0 fs m L ND Hp Hr|]; subst c0 j.
+    assert (VA : ValidAt c fs m) by (split; assumption).
     unfold cls_member_ok in HM. rewrite L in HM. rewrite forallb_forall in HM.
-    set (P := hprobes h) in *. set (K := keys m).
-    set (S0 := filter (fun k => mem k K) P).
-    assert (memS : forall k, In k P -> mem k S0 = mem k K).
-    { intros k Ik. unfold S0. rewrite mem_filter; [|intros a b E; apply String.eqb_eq in E; subst; reflexivity].
-      apply mem_in in Ik. rewrite Ik. reflexivity. }
-    assert (memS' : forall k, mem k S0 = true -> mem k K = true).
-    { intros k. unfold S0. rewrite mem_filter; [|intros a b E; apply String.eqb_eq in E; subst; reflexivity]. intros E. apply andb_true_iff in E. tauto. }
-    specialize (HM S0 (in_subseqs_filter _ P)).
-    assert (CO : consistent Sg fs P S0 = true).
-    { unfold consistent. apply forallb_forall. intros k Ik. apply andb_true_iff. split.
-      - destruct (existsb (fun f => String.eqb (fwire f) k && must_present Sg f) fs) eqn:EX; [|reflexivity]. cbn.
-        apply existsb_exists in EX. destruct EX as [f [If Ef]]. apply andb_true_iff in Ef. destruct Ef as [E1 E2]. apply String.eqb_eq in E1. subst k.
-        rewrite (memS _ Ik). apply mem_in. apply Hr; assumption.
-      - destruct (mem k S0) eqn:EM; [|reflexivity]. cbn. apply memS' in EM. apply mem_in in EM. unfold K, keys in EM. apply in_map_iff in EM.
-        destruct EM as [[k' v] [E I]]. cbn in E. subst k'. destruct (Hp k v I) as [f [If [Ef _]]]. apply mem_in. apply in_map_iff. exists f. auto. }
-    rewrite CO in HM. cbn [negb orb] in HM.
+    set (P := hprobes h) in *. set (S0 := filter (fun k => mem k (keys m)) P).
+    specialize (HM S0 (in_subseqs_filter _ P)). pose proof (consistent_valid c fs m P VA) as CO. fold S0 in CO. rewrite CO in HM. cbn [negb orb] in HM.
+    assert (LK : sleaf h (shape_of (JObj m)) = sleaf h (ShObj S0)).
+    { cbn [shape_of]. apply (sleaf_ext h (keys m) S0). intros k Ik. symmetry. apply memK_filter. exact Ik. }
     destruct (sleaf h (ShObj S0)) as [r|] eqn:LF; [|discriminate].
     destruct r; try discriminate. destruct e; try discriminate. destruct t; try discriminate. rename n into c'.
     apply andb_true_iff in HM. destruct HM as [IN HM]. apply andb_true_iff in IN. destruct IN as [IN InG]. apply existsb_pty_in in IN.
     destruct (lookup_cls Sg c') as [fs'|] eqn:L'; [|discriminate].
-    unfold compat in HM. apply andb_true_iff in HM. destruct HM as [C1 C2]. rewrite forallb_forall in C1, C2.
-    assert (LK : sleaf h (shape_of (JObj m)) = Some (RStruct HObj (PyCls c'))).
-    { cbn [shape_of]. rewrite <- LF. apply sleaf_ext. intros k Ik. fold K. symmetry. apply memS. exact Ik. }
     assert (V' : pvalid (PyCls c') (JObj m)).
-    { eapply pv_cls; [exact L' | exact ND | |].
-      - intros k v I. destruct (Hp k v I) as [f [If [Ef [Pf [Jf Nf]]]]]. specialize (C1 f If). apply orb_true_iff in C1. destruct C1 as [C1|C1].
-        + exfalso. rewrite mem_filter in C1; [|intros a b E; apply String.eqb_eq in E; subst; reflexivity]. apply andb_true_iff in C1. destruct C1 as [C1 C1'].
-          rewrite Ef in C1, C1'. apply mem_in in C1. rewrite (memS k C1) in C1'. assert (mem k K = true). { apply mem_in. unfold K, keys. apply in_map_iff. exists (k, v). auto. }
-          rewrite H in C1'. discriminate.
-        + apply existsb_exists in C1. destruct C1 as [f' [If' Sf]]. unfold fld_compat in Sf.
-          apply andb_true_iff in Sf. destruct Sf as [Sf ALT]. apply andb_true_iff in Sf. destruct Sf as [Sw Sv].
-          apply String.eqb_eq in Sw. apply vkind_eqb_eq in Sv. rewrite Ef in ALT.
-          exists f'. split; [exact If'|]. split; [congruence|].
-          apply orb_true_iff in ALT. destruct ALT as [ALT|ALT].
-          * apply andb_true_iff in ALT. destruct ALT as [ALT IM]. apply andb_true_iff in ALT. destruct ALT as [ET EO].
-            apply pty_eqb_eq in ET. apply Bool.eqb_prop in EO.
-            split; [rewrite <- ET; exact Pf|]. split; [rewrite <- (jvalidate_same f f' v Sv EO); exact Jf|].
-            intros EN. specialize (Nf EN). rewrite Nf in IM. exact IM.
-          * apply andb_true_iff in ALT. destruct ALT as [NLF ES]. apply negb_true_iff in NLF. apply pty_eqb_eq in ES.
-            assert (NN : v <> JNull) by (intros EN; specialize (Nf EN); congruence).
-            split; [apply strip_up; rewrite <- ES; apply strip_down; assumption|].
-            split; [rewrite <- (jvalidate_nonnull f f' v NN Sv); exact Jf | intros EN; contradiction].
-      - intros f' If' Mf'. specialize (C2 f' If'). rewrite Mf' in C2. cbn in C2. apply mem_in in C2. apply in_app_or in C2. destruct C2 as [C2|C2].
-        + apply filter_In in C2. destruct C2 as [_ C2]. apply existsb_exists in C2. destruct C2 as [f [If Ef]]. apply andb_true_iff in Ef. destruct Ef as [E1 E2].
-          apply String.eqb_eq in E1. rewrite <- E1. apply Hr; assumption.
-        + apply mem_in. apply memS'. apply mem_in. exact C2. }
+    { match type of HM with compat _ _ _ _ _ _ ?pres ?abs = true => apply (compat_sound c c' fs fs' m pres abs L' ND VA); [| | exact HM] end.
+      - intros k Ik. apply in_app_or in Ik. destruct Ik as [Ik|Ik]; [exact (required_present c fs m VA k Ik)|].
+        apply mem_in. apply (memK_filter_sub P). apply mem_in. exact Ik.
+      - intros k Ik Kin. apply filter_In in Ik. destruct Ik as [IkP Ik]. apply negb_true_iff in Ik.
+        unfold S0 in Ik. rewrite (memK_filter P _ _ IkP) in Ik. apply mem_in in Kin. congruence. }
     assert (OK' : okty Sg GC GU (PyCls c') = true) by (unfold okty; cbn [flat_ty handled andb]; exact InG).
     destruct (A (PyCls c') eq_refl OK' V') as [n [o [S1 [T1 N1]]]].
     exists n, o. split; [rewrite (sleaf_sound _ h (JObj m) _ LK); exact S1|]. split; [exact (t_union Sg ms (PyCls c') o IN T1) | exact N1].
